@@ -75,6 +75,9 @@ theorem inv_init (ps : List (Prog × List Bool)) (hs : ∀ p ∈ ps, safe pf Abs
     · intro i th _
       exact ⟨fun h => (by cases h), fun h => (by cases h)⟩
     · intro a ha; cases ha
+    · exact List.Pairwise.nil
+    · intro _ a ha; cases ha
+    · exact List.Pairwise.nil
   · intro i th hth
     simp only [State.init, List.getElem?_map] at hth
     cases hp : ps[i]? with
@@ -111,6 +114,9 @@ theorem inv_initLoaded (ps : List (Prog × List Bool)) (hs : ∀ p ∈ ps, safe 
     · intro i th _
       exact ⟨fun h => (by cases h), fun h => (by cases h)⟩
     · intro a ha; cases ha
+    · exact List.Pairwise.nil
+    · intro _ a ha; cases ha
+    · exact List.Pairwise.nil
   · intro i th hth
     simp only [State.initLoaded, List.getElem?_map] at hth
     cases hp : ps[i]? with
